@@ -457,9 +457,21 @@ VCHECK("c06.refuse", 300)
     QByteArray serverFirst;
     std::string rejectKind;
     if (plan == 2) {
-        history += " <success/>(before server-first)";
-        deliver(success(std::nullopt));
+        // the success may carry data: nothing, an (otherwise honest) server-first message, a signature the server cannot
+        // know, garbage, or an empty payload - none of them proves knowledge of the password
+        std::optional<QByteArray> data;
+        std::string dataKind = "no-data";
+        switch (t.u(5)) {
+        case 1: data = "r=" + cnonce + suffix + ",s=" + salt.toBase64() + ",i=" + QByteArray::number(iter); dataKind = "server-first-as-data"; break;
+        case 2: data = "v=" + t.bytes(uint32_t(EVP_MD_size(alg.md))).toBase64(); dataKind = "unverifiable-signature"; break;
+        case 3: data = t.bytes(1 + t.len(30)); dataKind = "garbage"; break;
+        case 4: data = QByteArray(); dataKind = "empty-data"; break;
+        default: break;
+        }
+        history += " <success/>(before server-first, " + dataKind + ")";
+        deliver(success(data));
         c.label("early-success");
+        c.label("early-success:" + dataKind);
         c.nontrivial(vh::fnvInt(uint64_t(sasl2) * 16 + algI, vh::fnv(history)));
         c.sample([&] { return std::string(sasl2 ? "SASL2 " : "SASL1 ") + alg.scram + ":" + history; });
         c.require(!(outcome && *outcome), std::string("c06 refuse success-without-server-proof early ") + (sasl2 ? "sasl2" : "sasl1"),
